@@ -35,7 +35,7 @@ func Profile() *world.Profile {
 		TwinMethodPm: 300, WrapperPm: 300, RegVariantsPm: 250, AutoHeadPm: 300, BeforesPm: 200,
 		MinTasks: 1, MaxTasks: 3, MinReqs: 2, MaxReqs: 6,
 		HotPm: 200, HostilePm: 120,
-		Methods: []string{"GET", "HEAD"}, MethodW: []int{5, 1},
+		Methods: []string{"GET", "HEAD", "POST"}, MethodW: []int{5, 2, 1},
 		ExtraPm: 0, KnownChain: true,
 	}
 	p.Shapes = make([]int, 24)
